@@ -21,7 +21,7 @@ def available():
         return False
 
 
-def campaign(ctx, modname, seed, idx, runs, corpus, decode, max_len=64, timeout=1500):
+def campaign(ctx, modname, seed, idx, runs, corpus, decode, max_len=64, timeout=1500, extra_args=()):
     out = tempfile.mkdtemp(prefix="vlc-fuzz-%s-" % modname)
     try:
         cdir = os.path.join(out, "corpus")
@@ -41,7 +41,7 @@ def campaign(ctx, modname, seed, idx, runs, corpus, decode, max_len=64, timeout=
                 os.remove(sp)
             cmd = [sys.executable, "-B", "-W", "ignore", "-m", "vlc.fuzz", modname, out,
                    "-runs=%d" % n, "-seed=%d" % ((seed * 31 + rnd) % (2 ** 31) or 1), "-max_len=%d" % max_len, "-print_final_stats=0",
-                   "-rss_limit_mb=4096", "-artifact_prefix=%s/" % out, cdir]
+                   "-rss_limit_mb=4096", "-artifact_prefix=%s/" % out] + list(extra_args) + [cdir]
             r = subprocess.run(cmd, cwd=env.VERIF, env=e, capture_output=True, text=True, timeout=timeout)
             stats = json.load(open(sp)) if os.path.exists(sp) else {}
             ctx.evaluations += stats.get("evaluations", 0)
